@@ -570,3 +570,83 @@ theorem applyAll_sessionOps (nl : Nat) (evs : List Ev) :
   rw [this]; simp [fileCells]
 
 end Hv.Storage
+
+namespace Hv.Storage
+
+/-! ### Appending behind a torn block strands everything that follows -/
+
+theorem payCells_getElem? (b : Block) (i : Nat) (h : i < b.plen) : (payCells b)[i]? = some (Cell.bp b i) := by
+  simp [payCells, List.getElem?_map, List.getElem?_range h]
+
+/-- A block cut at or after its header, followed by anything that is not its own continuation:
+    the reader returns no entry from here on (it stops with a checksum error or a short read). -/
+theorem readBlocks_frag_strands (f : Nat) (b : Block) (hw : b.WF) (r : Nat) (h1 : 16 ≤ r) (h2 : r < 16 + b.plen)
+    (rest : List Cell) (hrest : rest.head? ≠ some (Cell.bp b (r - 16))) :
+    (readBlocks (f + 1) ((blockCells b).take r ++ rest)).1 = [] := by
+  have hlen : ((blockCells b).take r ++ rest).length = r + rest.length := by
+    simp only [List.length_append, List.length_take, blockCells_length]; omega
+  have hsz : sizeField ((blockCells b).take r ++ rest) = some b.plen := by
+    rw [take_blockCells_ge b r h1, List.append_assoc]; exact sizeField_hdr b hw _
+  have hhead : ((blockCells b).take r ++ rest).head? = some (Cell.bh b 0) := by
+    rw [take_blockCells_ge b r h1]; simp [hdrCells_eq]
+  rw [readBlocks]
+  simp only [hlen, hsz, hhead]
+  have a1 : ¬ (r + rest.length = 0) := by omega
+  have a2 : ¬ (r + rest.length < 16) := by omega
+  simp only [a1, a2, if_false]
+  split
+  · rfl
+  · rename_i hav
+    split
+    · rename_i heq
+      exfalso
+      apply hrest
+      have hx : (((blockCells b).take r ++ rest).take (16 + b.plen))[r]? = (blockCells b)[r]? := by rw [heq]
+      rw [List.getElem?_take_of_lt h2,
+        List.getElem?_append_right (by simp only [List.length_take, blockCells_length]; omega)] at hx
+      have hl : ((blockCells b).take r).length = r := by
+        simp only [List.length_take, blockCells_length]; omega
+      rw [hl, Nat.sub_self] at hx
+      have hb : (blockCells b)[r]? = some (Cell.bp b (r - 16)) := by
+        simp only [blockCells]
+        rw [List.getElem?_append_right (by simp; exact h1)]
+        simp only [hdrCells_length]
+        exact payCells_getElem? b (r - 16) (by omega)
+      rw [hb] at hx
+      cases rest with
+      | nil => simp at hx
+      | cons x xs => simpa using hx
+    · rfl
+
+/-- file level: whole blocks, a torn block, then foreign bytes — nothing behind the torn block is ever loaded -/
+theorem loadEntries_strands (c : RCfg) (nl : Nat) (bs : List Block) (hwf : ∀ b ∈ bs, b.WF) (b : Block) (hb : b.WF)
+    (r : Nat) (h1 : 16 ≤ r) (h2 : r < 16 + b.plen) (rest : List Cell)
+    (hrest : rest.head? ≠ some (Cell.bp b (r - 16))) :
+    loadEntries c (fileCells nl bs ++ ((blockCells b).take r ++ rest)) = entsOf bs ∨
+    loadEntries c (fileCells nl bs ++ ((blockCells b).take r ++ rest)) = [] := by
+  have hh : headerOf (fileCells nl bs ++ ((blockCells b).take r ++ rest)) = some nl := by
+    simp only [fileCells, List.append_assoc]; exact headerOf_file nl _
+  have hdr : (fileCells nl bs ++ ((blockCells b).take r ++ rest)).drop 64 =
+      nmCells nl ++ (render bs ++ ((blockCells b).take r ++ rest)) := by
+    simp only [fileCells, List.append_assoc]
+    rw [List.drop_append_of_le_length (by simp)]
+    simp [List.drop_of_length_le]
+  have hdr2 : (nmCells nl ++ (render bs ++ ((blockCells b).take r ++ rest))).drop nl =
+      render bs ++ ((blockCells b).take r ++ rest) := by
+    rw [List.drop_append_of_le_length (by simp)]
+    simp [List.drop_of_length_le]
+  have hnl : ¬ ((nmCells nl ++ (render bs ++ ((blockCells b).take r ++ rest))).length < nl) := by simp
+  obtain ⟨F, hF⟩ : ∃ F, (fileCells nl bs ++ ((blockCells b).take r ++ rest)).length = bs.length + (F + 1) := by
+    refine ⟨(fileCells nl bs ++ ((blockCells b).take r ++ rest)).length - bs.length - 1, ?_⟩
+    have := render_length_ge bs
+    simp only [fileCells, List.length_append, fhCells_length, nmCells_length]
+    omega
+  simp only [loadEntries, loadFile, hh, hdr, hdr2, hnl, if_false]
+  rw [hF, readBlocks_render bs hwf]
+  have := readBlocks_frag_strands F b hb r h1 h2 rest hrest
+  rw [this, List.append_nil]
+  cases stopOk c (readBlocks (F + 1) ((blockCells b).take r ++ rest)).2
+  · right; rfl
+  · left; rfl
+
+end Hv.Storage
